@@ -16,6 +16,8 @@ package main
 //   ids-canonical    QUICSpec.TransportParameterIDs() == sort(canon(wire ids)), both when
 //                    called before the dial and after it
 //   id-unstable      clienthellod's fingerprint id is the same on every dial of a QUICID
+//   gci-fields       the header fields it hashes (version, DCID/SCID length, first packet number
+//                    bytes, token presence) are the same on every dial and are the spec's
 //   id-recorded      ... and equals QUICID.Fingerprint where that was recorded with it
 //   reuse-<m>        the monitors tp-wire, tp-suppressed, ids-canonical on the second
 //                    and third dial of ONE spec object (the caller may have edited the
@@ -389,6 +391,7 @@ type fpObs struct {
 	FrameSet  string
 	NPackets  int
 	FrameList string
+	Header    string // the header fields clienthellod hashes: version, DCID/SCID length, packet number bytes, token
 }
 
 func fpDecode(fl fpFlight) (*fpObs, error) {
@@ -440,6 +443,9 @@ func fpDecode(fl fpFlight) (*fpObs, error) {
 	}
 	sort.Ints(ts)
 	o.FrameSet = fmt.Sprint(ts)
+	if h := gci.Packets[0].Header; h != nil {
+		o.Header = fmt.Sprintf("v=%x dcid=%d scid=%d pn=%x token=%v", []byte(h.Version), h.DCIDLength, h.SCIDLength, []byte(h.PacketNumber), h.HasToken)
+	}
 	o.HelloRaw = gci.ClientHello.Raw()
 	h, err := fpParseHello(o.HelloRaw)
 	if err != nil {
@@ -752,6 +758,7 @@ func runSimFingerprint(w *bufio.Writer, seed uint64, n int, args []string) {
 		ids := map[string]int{}
 		firstOf := map[string]*fpObs{}
 		frameSets := map[string]int{}
+		headers := map[string]int{}
 		orders := map[string]int{}
 		nOracle := 0
 		for i := 0; i < n; i++ {
@@ -771,6 +778,7 @@ func runSimFingerprint(w *bufio.Writer, seed uint64, n int, args []string) {
 				firstOf[o.HexID] = o
 			}
 			frameSets[o.FrameSet]++
+			headers[o.Header]++
 			var ord []string
 			for _, p := range o.Wire {
 				ord = append(ord, fmt.Sprintf("%x", p.ID))
@@ -805,6 +813,25 @@ func runSimFingerprint(w *bufio.Writer, seed uint64, n int, args []string) {
 			for h, c := range ids {
 				if h != id.Fingerprint {
 					rep.fail(k+"id-recorded", fmt.Sprintf("fingerprint id %s (on %d of %d dials) differs from the recorded %s", h, c, n, id.Fingerprint), fmt.Sprintf("frames=%s gci=%s ch=%s tp=%s", firstOf[h].FrameSet, firstOf[h].GciID, firstOf[h].ChID, firstOf[h].TpID))
+				}
+			}
+		}
+		// C11_fp_features_deterministic on the implementation: the hashed header fields are the
+		// same on every dial and are what the spec says
+		{
+			ips := func() quic.InitialPacketSpec { sp, _ := specFor(name); return sp.InitialPacketSpec }()
+			pnLen := int(ips.InitPacketNumberLength)
+			if len(ips.InitPacketNumberLengths) > 0 {
+				pnLen = int(ips.InitPacketNumberLengths[0])
+			}
+			pnb := make([]byte, pnLen)
+			for i := range pnb {
+				pnb[pnLen-1-i] = byte(ips.InitPacketNumber >> (8 * uint(i)))
+			}
+			want := fmt.Sprintf("v=00000001 dcid=%d scid=%d pn=%x token=%v", ips.DestConnIDLength, ips.SrcConnIDLength, pnb, ips.ClientTokenLength > 0)
+			for h, c := range headers {
+				if h != want || len(headers) > 1 {
+					rep.fail(k+"gci-fields", fmt.Sprintf("hashed header fields on %d of %d dials: %s; the spec says %s", c, n, h, want), name)
 				}
 			}
 		}
